@@ -286,6 +286,7 @@ def _anc(n):
 
 
 VARIANTS = [
+    M("revert-fix-size-set-before-strokes", "model.py", "            # Stored strokes are applied first: applying them later drops the sizes of the columns they touch\n            self.extract_strokes(table_id)\n", "", "C16.R2"),
     M("caption-text-not-cleared-before-append", "model.py", "            clear_field_container(self.objects[caption_storage_id].text)\n            self.objects[caption_storage_id].text.append(caption)", "            self.objects[caption_storage_id].text.append(caption)", "C16.R2"),
     M("caption-text-reads-last-entry", "model.py", "        return self.objects[caption_storage_id].text[0]", "        return self.objects[caption_storage_id].text[-1]", "C16.R2"),
     M("caption-text-query-creates-archive", "model.py", "            if caption is None:\n                return \"Caption\"\n            self.create_caption_archive(table_id)", "            self.create_caption_archive(table_id)", "C16.R"),
